@@ -1,7 +1,10 @@
 // wC17 — file logger: whole lines in call order in the file named from id/oname/date,
 // suppression only inside the interval, rotation at the cycle after a date change (also after the
 // open of the new file had failed for a while), retention
-// of exactly the expired own dated files, read window = real bytes, no path outside logs.
+// of exactly the expired own dated files, read window = real bytes (also of the live file while
+// it is appended to), no path outside logs. Every scenario draws the whole configuration (level,
+// names, rotation, keep-days, interval, stdout mirror, how each of them is given) and runs in a
+// drawn time zone (zone.go).
 package main
 
 import (
@@ -19,6 +22,8 @@ import (
 
 func main() {
 	c := vlib.Start("C17")
+	initZones(c) // re-executes the child once, in the time zone of this shard
+	installStdoutSink()
 	initTmp(c)
 	defer cleanupTmp()
 	race := c.Flavour == "race"
@@ -37,6 +42,17 @@ func main() {
 	secLinesMulti(c, nMulti)
 	c.Floor("multi_goroutine_lines_matched", int64(nMulti)*40/sh, c.Counter("multi_goroutine_lines_matched"))
 	c.Floor("multi_goroutine_scenarios", int64(nMulti)/10/sh, c.Counter("multi_goroutine_scenarios"))
+
+	nLive := c.N(64, 960)
+	if race {
+		nLive = c.N(36, 480)
+	}
+	secReadLive(c, nLive)
+	c.Floor("live_reads_compared", int64(nLive)*8/sh, c.Counter("live_reads_compared"))
+	c.Floor("live_tail_reads_matched", int64(nLive)*3/sh, c.Counter("live_tail_reads_matched"))
+	c.Floor("live_lines_matched", int64(nLive)*40/sh, c.Counter("live_lines_matched"))
+	// the stdout mirror really was on: id-keyed lines found in the file with it on, and drained from the sink
+	c.Floor("id_entry_point_lines_in_file_with_stdout_mirror_on", int64(nMulti)/sh, c.Counter("id_entry_point_lines_in_file_with_stdout_mirror_on"))
 
 	if !race {
 		n := c.N(480, 9600)
@@ -76,12 +92,16 @@ func main() {
 		c.Floor("retention_files_judged", int64(n)*2/sh, c.Counter("retention_files_judged"))
 		c.Floor("retention_expired_removed", int64(n)/10/sh, c.Counter("retention_expired_removed"))
 		c.Floor("retention_edge_keep_exact_kept", int64(n)/40/sh, c.Counter("retention_edge_keep_exact_kept"))
+		c.Floor("retention_edge_keep_exact_kept_east_of_utc", 1, c.Counter("retention_edge_keep_exact_kept_east_of_utc"))
+		c.Floor("retention_edge_keep_exact_kept_west_of_utc", 1, c.Counter("retention_edge_keep_exact_kept_west_of_utc"))
 
 		n = c.N(240, 4800)
 		secRead(c, n)
 		c.Floor("read_nonnil_compared", int64(n)*2/sh, c.Counter("read_nonnil_compared"))
 		c.Floor("read_traversal_probes", int64(n)/2/sh, c.Counter("read_traversal_probes"))
 	}
+	closeStdoutSink(c)
+	c.Floor("stdout_sink_message_lines_drained", int64(nMulti)/sh, c.Counter("stdout_sink_message_lines_drained"))
 	c.Finish()
 }
 
@@ -90,6 +110,7 @@ func pickInt(r *vlib.Rand, v ...int) int { return v[r.Intn(len(v))] }
 // ---- 1. lines, single goroutine, virtual time stepped around the suppression interval ----------
 
 func secLinesSingle(c *vlib.Ctx, n int) {
+	curSec = "lines-single"
 	c.Cases("lines-single", n, func(i int, r *vlib.Rand) {
 		day := randDay(r)
 		t0 := day*dayMs + int64(r.Range(5*60*1000, 6*3600*1000))
@@ -206,6 +227,7 @@ func secLinesSingle(c *vlib.Ctx, n int) {
 // ---- 2. lines, many goroutines (also the race-detector workload) ------------------------------
 
 func secLinesMulti(c *vlib.Ctx, n int) {
+	curSec = "lines-multi"
 	c.Cases("lines-multi", n, func(i int, r *vlib.Rand) {
 		if c.Flavour != "race" {
 			setVirtual(randDay(r)*dayMs + int64(r.Range(5*60*1000, 20*3600*1000)))
@@ -333,6 +355,7 @@ type tracked struct {
 }
 
 func secRotation(c *vlib.Ctx, n int) {
+	curSec = "rotation"
 	c.Cases("rotation", n, func(i int, r *vlib.Rand) {
 		day := randDay(r)
 		tod := int64(r.Range(10*60*1000, 23*3600*1000))
@@ -560,6 +583,7 @@ func secRotation(c *vlib.Ctx, n int) {
 // ---- 3b. rotation while goroutines keep logging -------------------------------------------------
 
 func secRotationConcurrent(c *vlib.Ctx, n int) {
+	curSec = "rotation-concurrent"
 	c.Cases("rotation-concurrent", n, func(i int, r *vlib.Rand) {
 		day0 := randDay(r)
 		setVirtual(day0*dayMs + int64(r.Range(10*60*1000, 20*3600*1000)))
@@ -693,6 +717,7 @@ type seed struct {
 }
 
 func secRetention(c *vlib.Ctx, n int) {
+	curSec = "retention"
 	c.Cases("retention", n, func(i int, r *vlib.Rand) {
 		day0 := randDay(r)
 		t0 := day0*dayMs + int64(r.Range(10*60*1000, 23*3600*1000))
@@ -885,12 +910,24 @@ func secRetention(c *vlib.Ctx, n int) {
 				c.Count("retention_expired_removed", 1)
 				if sd.age == kp+1 {
 					c.Count("retention_edge_keep_plus_one_removed", 1)
+					switch off := zoneOffsetAt(vnow()); {
+					case off > 0:
+						c.Count("retention_edge_keep_plus_one_removed_east_of_utc", 1)
+					case off < 0:
+						c.Count("retention_edge_keep_plus_one_removed_west_of_utc", 1)
+					}
 				}
 			}
 			if sd.expect == 1 && exists {
 				c.Count("retention_kept_intact", 1)
 				if sd.age == kp && s.keep > 0 {
 					c.Count("retention_edge_keep_exact_kept", 1)
+					switch off := zoneOffsetAt(vnow()); {
+					case off > 0:
+						c.Count("retention_edge_keep_exact_kept_east_of_utc", 1)
+					case off < 0:
+						c.Count("retention_edge_keep_exact_kept_west_of_utc", 1)
+					}
 				}
 			}
 		}
